@@ -537,9 +537,32 @@ var _ utils.PriorityQueue
 //@ requires [fits] this != nil && cfgFits(this)
 //@ modifies nothing
 
+// the metric's tag in the header: 1/2/3 name Euclidean/Manhattan/Cosine in both directions (what Save writes for a metric is
+// what Load turns back into a metric of the same kind), any other tag is refused instead of yielding an index without a metric
+//@ func index/space.NewEuclidean
+//@ props C08 C14 C12
+//@ assume
+//@ ensures [kind] istype(ret, *space.Euclidean) && ret.pay != 0
+//@ modifies nothing
+//@ func index/space.NewManhattan
+//@ props C08 C14 C12
+//@ assume
+//@ ensures [kind] istype(ret, *space.Manhattan) && ret.pay != 0
+//@ modifies nothing
+//@ func index/space.NewCosine
+//@ props C08 C14 C12
+//@ assume
+//@ ensures [kind] istype(ret, *space.Cosine) && ret.pay != 0
+//@ modifies nothing
+//@ func index.spaceToSpaceIdx
+//@ props C08
+//@ ensures [C08 metric-to-tag] (istype(s, *space.Euclidean) ==> ret == 1) && (istype(s, *space.Manhattan) ==> ret == 2) && (istype(s, *space.Cosine) ==> ret == 3)
+//@ ensures [C08 only-known-metrics-get-a-tag] ret != 0 ==> istype(s, *space.Euclidean) || istype(s, *space.Manhattan) || istype(s, *space.Cosine)
+//@ modifies nothing
 //@ func index.spaceIdxToSpace
 //@ props C08
-//@ assume
+//@ ensures [C08 tag-to-metric] (spaceIdx == 1 ==> isnil(ret1) && istype(ret0, *space.Euclidean)) && (spaceIdx == 2 ==> isnil(ret1) && istype(ret0, *space.Manhattan)) && (spaceIdx == 3 ==> isnil(ret1) && istype(ret0, *space.Cosine))
+//@ ensures [C08 unknown-tag-refused] spaceIdx != 1 && spaceIdx != 2 && spaceIdx != 3 ==> ret1 == InvalidSpaceTypeErr && isnil(ret0)
 //@ ensures [space] isnil(ret1) ==> !isnil(ret0)
 //@ modifies nothing
 
@@ -668,3 +691,38 @@ var _ utils.PriorityQueue
 //@ invariant [C08 saved-entry-id] idsRead >= 1 && savedEp == entrypointId && (live(this, entrypointId) ==> epv(this) == vertexOf(this, entrypointId)) && (!live(this, entrypointId) ==> this.entrypoint == nil)
 //@ loop 7
 //@ invariant [C08 saved-entry-id] idsRead >= 1 && savedEp == entrypointId && (live(this, entrypointId) ==> epv(this) == vertexOf(this, entrypointId)) && (!live(this, entrypointId) ==> this.entrypoint == nil)
+
+// ---------------------------------------------------------------------------------------------
+// C12/C14: constructing an index (used by every partition): the defaults of a configuration without options, sixteen shard
+// maps of its own, nothing stored, the given dimension and metric
+//@ func iface:index.HnswOption.apply
+//@ props C14 C12
+//@ assume
+//@ trust options: an index option writes fields of the configuration it is given and nothing else (every option in config.go is such a setter)
+//@ modifies fields($arg1)
+// (the short name math.Log denotes the repository's float32 wrapper and the standard library's function it calls: both are
+// pure functions of their argument, which is all that is said here)
+//@ func math.Log
+//@ props C14 C12
+//@ assume
+//@ pure
+//@ modifies nothing
+//@ func index.newHnswConfig
+//@ props C14 C12
+//@ safety UNCLAIMED
+//@ ensures [built] ret != nil && fresh(ret)
+//@ ensures [C12 defaults-without-options] len(options) == 0 ==> ret.ef == 20 && ret.efConstruction == 200 && ret.m == 16 && ret.mMax == 16 && ret.mMax0 == 32 && ret.searchAlgorithm == HnswSearchSimple
+//@ modifies nothing
+//@ loop 1
+//@ invariant [defaults-until-an-option-is-applied] config != nil && (len(options) == 0 ==> config.ef == 20 && config.efConstruction == 200 && config.m == 16 && config.mMax == 0 - 1 && config.mMax0 == 0 - 1 && config.searchAlgorithm == HnswSearchSimple)
+//@ func index.NewHnsw
+//@ props C14 C12
+//@ ensures [new-index] ret != nil && fresh(ret) && ret.len == 0 && ret.entrypoint == nil && wfShards(ret) && ret.size == size && ret.space == space && ret.config != nil
+//@ ensures [C12 default-parameters] len(options) == 0 ==> ret.config.ef == 20 && ret.config.efConstruction == 200 && ret.config.mMax0 == 32
+//@ ensures [own-shards] forall s int :: 0 <= s && s < 16 ==> fresh(ret.vertices[s]) && len(ret.vertices[s]) == 0
+//@ modifies nothing
+//@ loop 1
+//@ invariant [own-index] index != nil && fresh(index) && 0 <= i && i <= 16
+//@ invariant [C12 shards-so-far] forall s int :: 0 <= s && s < i ==> index.vertices[s] != nil && fresh(index.vertices[s]) && allocated(index.vertices[s]) && len(index.vertices[s]) == 0
+//@ invariant [C12 shards-distinct] forall s int, t int :: 0 <= s && s < t && t < i ==> index.vertices[s] != index.vertices[t]
+//@ invariant [rest-kept] index.len == 0 && index.entrypoint == nil && index.size == size && index.space == space && index.config != nil && (len(options) == 0 ==> index.config.ef == 20 && index.config.efConstruction == 200 && index.config.mMax0 == 32)
